@@ -83,7 +83,7 @@ pub fn check_value(v: &RVal, acc: &mut Acc) {
                 acc.vio("value-into-serde:differs-from-document", || json!({"ctx": ctx(), "observed": format!("{:?}", from_serde(&sj))}));
             }
             match guard(|| jsonb::Value::from(sj)) {
-                Ok(back) if back == val => {}
+                Ok(back) if back == val && from_value(&back) == expect => {}
                 other => acc.vio("value-into-serde:round-trip-not-equal", || json!({"ctx": ctx(), "back": format!("{:?}", other)})),
             }
         }
@@ -93,6 +93,13 @@ pub fn check_value(v: &RVal, acc: &mut Acc) {
 
 pub fn spaces(tier: Tier) -> Vec<Space<'static>> {
     let mut sp: Vec<Space> = vec![];
+    {
+        // trees holding a SIGNED zero (what `Value::from(0i64)` or the text `-0` gives): encoded as the
+        // one zero form, converted to serde_json's 0 and back to an unsigned zero - equal to the original
+        let z = RVal::Num(RNum::I(0));
+        let zs = vec![z.clone(), RVal::Arr(vec![z.clone()]), RVal::obj(vec![("a", z.clone())]), RVal::Arr(vec![RVal::u(0), z.clone(), RVal::f(0.0)]), RVal::obj(vec![("a", RVal::Arr(vec![z.clone(), RVal::i(-1)])), ("b", z)])];
+        sp.push(Space::new("signed-zero trees", zs.len() as u64, move |i, acc| check_value(&zs[i as usize], acc)));
+    }
     let d2 = univ::d2();
     sp.push(Space::new("d2", d2.len() as u64, move |i, acc| check_value(&d2[i as usize], acc)));
     let d1q: Vec<RVal> = univ::d1q().iter().filter(|v| v.all_finite()).cloned().collect();
